@@ -6,6 +6,17 @@ DIFF_NOTE = ("Trusted: Lean 4.33 kernel (axioms propext, Classical.choice, Quot.
              "than verified: the Go analyser itself (hand-written Lean transcription, one function per Go function, explicit panics, fuel), "
              "float formatting of DiffInfo, x- extensions (oracle sweep only).")
 CLAIMED = {
+ "C06": {
+  "technique": "Lean 4 proof (decision-logic theorems over the authorisation model for all requirement lists and credential assignments) + compiled generated servers with stub authenticators over all credential assignments",
+  "text": ("Proof: `serve` models the effective requirement (operation list if present, else global), the `.Authorized` guard of the generated ServeHTTP and the pinned runtime's "
+           "RouteAuthenticator(s).Authenticate / Context.Authorize; for ALL requirement lists and ALL credential assignments: open_when_empty, explicit_empty_opens, sound (handler with "
+           "a principal only if one alternative has every scheme authenticating, and the principal is one of its schemes' answers), anonymous_only_if_allowed, reject_when_unsatisfied. "
+           "Tie: generated servers (global + per-operation requirements over 9 shapes: inherit, `security: []`, single, AND, OR, oauth2 scopes, `{}` alternative) are compiled with stub "
+           "authenticators; every assignment of {absent, good, bad} plus nil-principal / uncoded-error / partial-scope credentials is sent and status, handler-reached and principal "
+           "must equal the model under one of the two scheme orders of an alternative."),
+  "note": ("Trusted: Lean kernel + audited axioms; genlab server lab (generated server + generated glue main, httptest in-process); the stub authenticators and their mirror. "
+           "Modelled rather than verified: go-openapi/runtime's router and Authenticate (dependency, transcribed), OAuth2 token introspection (stub), the Authorizer hook (default allow)."),
+ },
  "C08": {
   "technique": "Lean 4 proof (invariant over the registration loop of gatherOperations for all candidate lists; counterexample theorem) + correspondence through a verif accessor + generation census",
   "text": ("Proof + counterexample: `no_drop` shows by induction over the loop that for EVERY candidate list with pairwise distinct registration names (operationId, else the "
